@@ -246,4 +246,83 @@ Exported(cfg, lsvcs, p) ==
 (* the property: offered only if some entry names p as a consumer of it *)
 ExportOnlyIfConsumer(cfg, p, offered) ==
   \A s \in offered : \E e \in cfg : (e.name = s \/ e.name = Wildcard) /\ p \in e.peers
+(* ------------------------------------------------------------------------ *)
+(* END TO END.  An exporting cluster X (its exported-services entry cfg and  *)
+(* its LOCAL catalog x, same three tables with peer = Local) streams to an    *)
+(* importing cluster whose catalog is icat; X calls the importer k (consumer  *)
+(* name in cfg), the importer calls X p (key of the imported rows).           *)
+(*   XConfig  : ONE write replaces the whole Services list of the entry      *)
+(*              (state.EnsureConfigEntry / DeleteConfigEntry)                 *)
+(*   ApplyX   : Catalog.Register / Deregister of one instance in X            *)
+(* subscriptionManager (subscription_manager.go): syncNormalServices keeps    *)
+(* one watch per service of Exported(cfg, ..), handleEvent sends a service's  *)
+(* instances with their checks FLATTENED into one check per instance whose    *)
+(* status is the worst of node-level and own checks (flattenChecks), and the  *)
+(* list of exported names; the importer applies them with HandleUpdate /      *)
+(* HandleExportList.  After the stream has settled the importer must hold     *)
+(* exactly what is exported NOW.                                              *)
+(* ------------------------------------------------------------------------ *)
+Score(st) == CASE st = "maintenance" -> 1 [] st = "critical" -> 2 [] st = "warning" -> 3 [] OTHER -> 4
+Worst(S) == CHOOSE s \in S : \A t \in S : Score(s) <= Score(t)
+
+XNodeRow(c) == [peer |-> Local, node |-> c.node, addr |-> c.addr]
+ApplyX(x, c) ==
+  CASE c.t = "xreg" ->
+         [nodes |-> {n \in x.nodes : ~(n.peer = Local /\ n.node = c.node)} \cup {XNodeRow(c)},
+          svcs  |-> {s \in x.svcs : ~(s.peer = Local /\ s.node = c.node /\ s.id = c.id)}
+                    \cup {[peer |-> Local, node |-> c.node, id |-> c.id, name |-> c.name, ver |-> c.ver]},
+          chks  |-> {k \in x.chks : ~(k.peer = Local /\ k.node = c.node /\ k.cid \in {c.cid, "nc"})}
+                    \cup (IF c.st = "none" THEN {} ELSE {[peer |-> Local, node |-> c.node, cid |-> c.cid, sid |-> c.id, st |-> c.st]})
+                    \cup (IF c.nst = "none" THEN {} ELSE {[peer |-> Local, node |-> c.node, cid |-> "nc", sid |-> "", st |-> c.nst]}),
+          rest  |-> x.rest]
+    [] c.t = "xdereg" ->
+         [nodes |-> x.nodes,
+          svcs  |-> {s \in x.svcs : ~(s.peer = Local /\ s.node = c.node /\ s.id = c.id)},
+          chks  |-> {k \in x.chks : ~(k.peer = Local /\ k.node = c.node /\ k.sid = c.id)},
+          rest  |-> x.rest]
+    [] OTHER -> x
+RECURSIVE ApplyXSeq(_, _)
+ApplyXSeq(x, cs) == IF cs = <<>> THEN x ELSE ApplyXSeq(ApplyX(x, Head(cs)), Tail(cs))
+
+XLocalSvcs(x) == {[name |-> s.name, kind |-> ""] : s \in {r \in x.svcs : r.peer = Local}}
+ExpSet(cfg, x, k) == Exported(cfg, XLocalSvcs(x), k)
+
+(* what X offers for one service: instances with node address and flattened health *)
+XHealth(x, n, id) ==
+  LET S == {c.st : c \in {d \in x.chks : d.peer = Local /\ d.node = n /\ (d.sid = "" \/ d.sid = id)}}
+  IN IF S = {} THEN "none" ELSE Worst(S)
+Offer(x, svc) ==
+  {[node |-> s.node, id |-> s.id, ver |-> s.ver,
+    addr |-> {n.addr : n \in {m \in x.nodes : m.peer = Local /\ m.node = s.node}},
+    health |-> XHealth(x, s.node, s.id)] : s \in {r \in x.svcs : r.peer = Local /\ r.name = svc}}
+(* what the importer holds for it *)
+Imported(icat, p, svc) ==
+  {[node |-> s.node, id |-> s.id, ver |-> s.ver,
+    addr |-> {n.addr : n \in {m \in icat.nodes : m.peer = p /\ m.node = s.node}},
+    health |-> LET C == {d \in icat.chks : d.peer = p /\ d.node = s.node /\ d.sid = s.id}
+               IN IF C = {} THEN "none" ELSE IF Cardinality(C) = 1 THEN (CHOOSE d \in C : TRUE).st ELSE "many"]
+     : s \in Stored(icat, p, svc)}
+
+(* THE PROPERTY, end to end (state predicates on a settled state) *)
+E2EOnlyExported(cfg, x, icat, p, k) == ServicesOf(icat, p) \subseteq ExpSet(cfg, x, k)
+E2EMirror(cfg, x, icat, p, k) == \A svc \in ExpSet(cfg, x, k) : Imported(icat, p, svc) = Offer(x, svc)
+E2ENodes(cfg, x, icat, p, k) ==
+  {n \in icat.nodes : n.peer = p}
+    = {[peer |-> p, node |-> n.node, addr |-> n.addr] :
+         n \in {m \in x.nodes : m.peer = Local /\ \E s \in x.svcs : s.peer = Local /\ s.node = m.node /\ s.name \in ExpSet(cfg, x, k)}}
+E2EChecks(icat, p) == NoOrphanChecks(icat, p) /\ \A c \in icat.chks : c.peer = p => c.sid # ""
+
+(* constructive: the settled importer = every exported service reconciled, then the list *)
+OfferSnap(x, svc, flat) ==
+  {[node |-> n, addr |-> (CHOOSE m \in x.nodes : m.peer = Local /\ m.node = n).addr, nchk |-> {},
+    insts |-> {[id |-> s.id, ver |-> s.ver,
+                schk |-> IF XHealth(x, n, s.id) = "none" THEN {} ELSE {[cid |-> flat[s.id], st |-> XHealth(x, n, s.id)]}]
+                 : s \in {r \in x.svcs : r.peer = Local /\ r.name = svc /\ r.node = n}}]
+     : n \in {r.node : r \in {q \in x.svcs : q.peer = Local /\ q.name = svc}}}
+RECURSIVE SyncAll(_, _, _, _, _)
+SyncAll(icat, p, todo, x, flat) ==
+  IF todo = {} THEN icat
+  ELSE LET s == CHOOSE t \in todo : TRUE IN SyncAll(HandleUpdate(icat, p, s, OfferSnap(x, s, flat)), p, todo \ {s}, x, flat)
+Sync(cfg, x, icat, p, k, flat, twin) ==
+  HandleExportList(SyncAll(icat, p, ExpSet(cfg, x, k), x, flat), p, ExpSet(cfg, x, k), twin)
 =============================================================================
